@@ -58,22 +58,29 @@ ZeroRegs == [i \in 1..NREG |-> 0]
 NoStreams == [i \in 1..NSTR |-> [rid |-> NONE, tag |-> 0, val |-> 0]]
 NoHandles == [i \in 1..NHND |-> NONE]
 
-NewTask(cmd, code, regs, handles, noEvict) ==
+\* legacy: the task was spawned through the capability API (CapabilityContext): its shell futures
+\* are the shared-state ones of capability/shell_request.rs and shell_stream.rs
+NewTaskL(cmd, code, regs, handles, noEvict, legacy) ==
   [cmd |-> cmd, code |-> code, pc |-> 1, regs |-> regs, st |-> "live", seq |-> 0, en |-> 0,
    streams |-> NoStreams, handles |-> handles, hosting |-> NONE, aborted |-> FALSE,
-   ls |-> <<>>, yielded |-> FALSE, noEvict |-> noEvict, hostedNow |-> FALSE, why |-> ""]
+   ls |-> <<>>, yielded |-> FALSE, noEvict |-> noEvict, hostedNow |-> FALSE, why |-> "", legacy |-> legacy]
+
+NewTask(cmd, code, regs, handles, noEvict) == NewTaskL(cmd, code, regs, handles, noEvict, FALSE)
 
 \* exec: TRUE for the pseudo command that stands for the core's QueuingExecutor
 \* wreg: the command's AtomicWaker holds a waker of its host (poll_next registers, a wake takes)
+\* pass: (executor only) run_all alternates a pass over the spawn queue and a pass over the ready queue
 NewCmd(host) == [host |-> host, aborted |-> FALSE, alive |-> TRUE, out |-> {}, exec |-> FALSE,
-                 wreg |-> host # ROOT]
+                 wreg |-> host # ROOT, pass |-> "spawn"]
 Fifo == Sched = "fifo"
 
 \* kind: "never" | "once" | "many" ; kind0 is the kind the request was created with
-NewReq(kind, owner, tag, val) ==
-  [kind |-> kind, kind0 |-> kind, owner |-> owner, tag |-> tag, val |-> val,
+NewReqL(kind, owner, tag, val, legacy) ==
+  [kind |-> kind, kind0 |-> kind, owner |-> owner, tag |-> tag, val |-> val, legacy |-> legacy,
    held |-> FALSE, senderAlive |-> TRUE, recvAlive |-> (kind # "never"),
    reg |-> IF kind = "never" THEN "none" ELSE "latest", chan |-> <<>>, nres |-> 0]
+
+NewReq(kind, owner, tag, val) == NewReqL(kind, owner, tag, val, FALSE)
 
 \* n: position in the owning task's emission order (not observable in itself; fixes per-task order)
 EffItem(rid, tag, val, n) == [kind |-> "eff", o |-> rid, tag |-> tag, val |-> val, n |-> n]
@@ -230,7 +237,9 @@ Remove(S, K0, notify, why) ==
       C1 == [c \in DOMAIN S.cmds |->
                IF S.cmds[c].host \in K THEN [S.cmds[c] EXCEPT !.alive = FALSE, !.out = {}] ELSE S.cmds[c]]
       R1 == [r \in DOMAIN S.reqs |->
-               IF S.reqs[r].owner \in K THEN [S.reqs[r] EXCEPT !.recvAlive = FALSE] ELSE S.reqs[r]]
+               IF S.reqs[r].owner \in K
+               THEN [S.reqs[r] EXCEPT !.recvAlive = FALSE, !.reg = IF S.reqs[r].legacy THEN "none" ELSE @]
+               ELSE S.reqs[r]]
       J1 == SelectSeq(S.joinreg, LAMBDA j : j.k \notin K /\ j.w \notin K)
       S1 == [S EXCEPT !.tasks = T1, !.cmds = C1, !.reqs = R1, !.joinreg = J1,
                       !.ready = @ \ K,
@@ -310,8 +319,8 @@ ExecWait(S, t, I) ==
       \* requests sent by this poll (first poll of an inline request or of a stream)
       newR == {i \in DOMAIN L : polled(i) /\ L[i].k \in {"req", "next"} /\ ls0[i].rid \notin DOMAIN S.reqs}
       newReq(i) == IF L[i].k = "req"
-                   THEN NewReq("once", t, L[i].tag, Src(T, L[i].src))
-                   ELSE NewReq("many", t, T.streams[L[i].s].tag, T.streams[L[i].s].val)
+                   THEN NewReqL("once", t, L[i].tag, Src(T, L[i].src), T.legacy)
+                   ELSE NewReqL("many", t, T.streams[L[i].s].tag, T.streams[L[i].s].val, T.legacy)
       newItems == {EffItem(ls0[i].rid, newReq(i).tag, newReq(i).val,
                           T.en + Cardinality({j \in newR : j < i})) : i \in newR}
       ridsNew == {ls0[i].rid : i \in newR}
@@ -344,7 +353,10 @@ ExecWait(S, t, I) ==
       R2 == IF mode = "any" /\ win # 0
             THEN [r \in DOMAIN R1 |->
                     IF \E i \in DOMAIN L : i # win /\ L[i].k = "req" /\ ls0[i].rid = r
-                    THEN [R1[r] EXCEPT !.recvAlive = FALSE] ELSE R1[r]]
+                    THEN [R1[r] EXCEPT !.recvAlive = FALSE,
+                                       \* (a capability-API future owns its waker: dropped with it)
+                                       !.reg = IF R1[r].legacy THEN "none" ELSE @]
+                    ELSE R1[r]]
             ELSE R1
       \* register writes on completion
       dsts == Fld(I, "dst", <<>>)
@@ -392,7 +404,7 @@ ExecInstr(S, t) ==
     [] I.op = "spawn" ->
          LET k == <<t[1], I.script.tid>>
              S1 == [S EXCEPT !.tasks = [@ EXCEPT ![t].handles[I.h] = k]
-                                   @@ (k :> NewTask(T.cmd, I.script.code, T.regs, T.handles, FALSE)),
+                                   @@ (k :> NewTaskL(T.cmd, I.script.code, T.regs, T.handles, T.noEvict, T.legacy)),
                              !.ready = @ \cup {k}] IN
          adv(IF Fifo THEN [S1 EXCEPT !.sq[T.cmd] = Append(@, k)] ELSE S1)
     [] I.op = "abort" ->
@@ -494,8 +506,11 @@ Sel(S, c) ==
              IF r.k = "none" THEN [k |-> "task", c |-> c, t |-> t] ELSE r
         ELSE [k |-> "task", c |-> c, t |-> t]
   IN IF S.cmds[c].exec
-     THEN IF S.sq[c] # <<>> THEN desc(Head(S.sq[c]))
-          ELSE IF S.rq[c] # <<>> THEN desc(Head(S.rq[c])) ELSE NoSel
+     THEN IF S.cmds[c].pass = "spawn"
+          THEN IF S.sq[c] # <<>> THEN desc(Head(S.sq[c]))
+               ELSE IF S.rq[c] # <<>> THEN [k |-> "pass", c |-> c, t |-> NONE] ELSE NoSel
+          ELSE IF S.rq[c] # <<>> THEN desc(Head(S.rq[c]))
+               ELSE IF S.sq[c] # <<>> THEN [k |-> "pass", c |-> c, t |-> NONE] ELSE NoSel
      ELSE IF S.rq[c] # <<>> THEN desc(Head(S.rq[c]))
           ELSE IF S.sq[c] # <<>> THEN [k |-> "move", c |-> c, t |-> NONE] ELSE NoSel
 
@@ -507,7 +522,7 @@ Eligible(t) ==
 
 PopHead(S, c) ==
   IF ~Fifo THEN S
-  ELSE IF S.cmds[c].exec /\ S.sq[c] # <<>> THEN [S EXCEPT !.sq[c] = Tail(@)]
+  ELSE IF S.cmds[c].exec /\ S.cmds[c].pass = "spawn" THEN [S EXCEPT !.sq[c] = Tail(@)]
   ELSE [S EXCEPT !.rq[c] = Tail(@)]
 
 \* spawn_new_tasks: everything spawned since moves to the back of the (empty) ready queue
@@ -520,6 +535,16 @@ MoveSpawned ==
      /\ rq' = [rq EXCEPT ![r.c] = sq[r.c]]
      /\ sq' = [sq EXCEPT ![r.c] = <<>>]
   /\ UNCHANGED <<cmds, tasks, ready, run, reqs, joinreg>>
+
+\* QueuingExecutor::run_all goes from one pass to the other when the queue of the current one is empty
+SwitchPass ==
+  /\ Fifo /\ run = NONE
+  /\ ~ReapPending(St)
+  /\ cmds # <<>>
+  /\ LET r == Sel(St, TopCmd(St)) IN
+     /\ r.k = "pass"
+     /\ cmds' = [cmds EXCEPT ![r.c].pass = IF @ = "spawn" THEN "ready" ELSE "spawn"]
+  /\ UNCHANGED <<tasks, ready, run, reqs, joinreg, rq, sq>>
 
 \* run_task picks a ready task of a command that is being run
 PollBegin(t) ==
@@ -597,6 +622,7 @@ Internal ==
   \/ Step
   \/ \E c \in DOMAIN cmds : ReapCmd(c)
   \/ MoveSpawned
+  \/ SwitchPass
 
 ---------------------------------------------------------------------------
 (* What the shell can do to a request it holds *)
@@ -652,13 +678,15 @@ DropReq(r, al) ==
   /\ run = NONE
   /\ reqs[r].held
   /\ al = NONE \/ al \in AliasCands(St, r)
-  /\ Put(WakeOwner([St EXCEPT !.reqs[r].held = FALSE, !.reqs[r].senderAlive = FALSE,
-                              !.reqs[r].kind = "never"], r, al))
+  /\ LET S1 == [St EXCEPT !.reqs[r].held = FALSE, !.reqs[r].senderAlive = FALSE, !.reqs[r].kind = "never"] IN
+     \* (the capability API's futures are not woken when their request is dropped)
+     IF reqs[r].legacy THEN al = NONE /\ Put(S1) ELSE Put(WakeOwner(S1, r, al))
   /\ UNCHANGED run
 
 \* AbortHandle::abort: sets the flag, wakes nobody.  A command that a combinator holds but has not
 \* started yet (the second operand of `then`) can already be aborted: remembered in a stub.
-AbortStub == [host |-> NONE, aborted |-> TRUE, alive |-> FALSE, out |-> {}, exec |-> FALSE, wreg |-> FALSE]
+AbortStub == [host |-> NONE, aborted |-> TRUE, alive |-> FALSE, out |-> {}, exec |-> FALSE, wreg |-> FALSE,
+              pass |-> "spawn"]
 AbortCmd(c) ==
   /\ run = NONE
   /\ cmds' = IF c \in DOMAIN cmds THEN [cmds EXCEPT ![c].aborted = TRUE] ELSE (c :> AbortStub) @@ cmds
